@@ -21,7 +21,7 @@ PW = {
     "a_trail": b"correct horse\x00",  # one trailing byte
     "a_case": b"Correct horse",
 }
-KINDS = ["drop_field", "truncate", "b64_params", "b64_data", "edit_N", "edit_r", "edit_p", "edit_saltlen", "edit_digestlen", "method", "version", "extra_field", "empty"]
+KINDS = ["drop_field", "truncate", "b64_params", "b64_data", "edit_N", "edit_r", "edit_p", "edit_saltlen", "edit_digestlen", "edit_lengths", "method", "version", "extra_field", "empty"]
 
 
 def parse_fields(h):
@@ -57,7 +57,16 @@ def corruptions(h, kind, quick):
                      edit_r=[(N, 8, p, sl, dl), (N, 17, p, sl, dl), (N, 0, p, sl, dl)],
                      edit_p=[(N, r, 2, sl, dl), (N, r, 0, sl, dl)],
                      edit_saltlen=[(N, r, p, sl - 1, dl), (N, r, p, sl + 1, dl), (N, r, p, 0, dl), (N, r, p, 255, dl)],
-                     edit_digestlen=[(N, r, p, sl, dl - 1), (N, r, p, sl, dl + 1), (N, r, p, sl, 0), (N, r, p, sl, 255)])[kind]
+                     edit_digestlen=[(N, r, p, sl, dl - 1), (N, r, p, sl, dl + 1), (N, r, p, sl, 0), (N, r, p, sl, 255)], edit_lengths=[])[kind]
+        if kind == "edit_lengths":
+            # the two length bytes edited TOGETHER (they decide where the stored salt ends and how many bytes are derived and compared): the grid around the
+            # genuine values, the whole data field as salt with nothing left to compare, and - with cheap cost parameters, which is a third edit - every pair
+            nd = len(base64.b64decode(parts[3]))
+            grid = [(N, r, p, a, b) for a in (0, 1, sl - 1, sl, sl + 1, nd - 1, nd, nd + 1, 255) for b in (0, 1, dl - 1, dl, dl + 1, nd - 1, nd, 255) if (a, b) != (sl, dl)]
+            grid += [(N, r, p, a, nd - a) for a in range(0, nd + 1) if a != sl]
+            cheap = [(2, 1, 1, a, b) for a in (range(0, 256, 5) if quick else range(256)) for b in ((0, 1, 2, nd - a if 0 <= nd - a <= 255 else 3) if quick else range(0, 256, 3))]
+            cheap += [(2, 1, 1, a, b) for a in range(0, nd + 2) for b in (0, 1, max(0, nd - a))]
+            edits = grid + sorted(set(cheap))
         for e in edits:
             out.append(":".join([parts[0], parts[1], base64.b64encode(struct.pack(">HBBBB", *e)).decode(), parts[3]]))
     elif kind == "method":
